@@ -40,6 +40,29 @@ def adversarial_profile(rng):
                    max_stmts=4, const_lists=False)
 
 
+def finding_witnesses():
+    """deterministic witnesses of the two open label-name findings (so that each run reports them)"""
+    from ..idioms import fn, prog, wr, rd, num, var, bin_, call
+    out = []
+    # <name>end is both the end label of `loop` and the entry label of `loopend`
+    lp = fn("loop", 1, [], [("if", [(("cmp", ">", var("p0"), num(3)), [("return", num(1))])], None), ("return", bin_("+", var("p0"), num(1)))], True)
+    le = fn("loopend", 1, [], [("return", bin_("*", var("p0"), num(2)))], True)
+    out.append(("witness/function_end_label", prog([], [lp, le], [wr(call("loop", rd(0))), wr(call("loop", num(5))), wr(call("loopend", rd(1)), 1),
+                                                                 wr(call("loopend", num(2)), 1)], ["witness"])))
+    # a function named like a label the compiler generates for an if / else of this very program: the
+    # label number is read off a first compile (names do not influence the numbering)
+    def build(fname):
+        f = fn(fname, 1, [], [("return", bin_("+", var("p0"), num(7)))], True)
+        main = [wr(call(fname, rd(0))), wr(call(fname, num(2))),
+                ("if", [(("cmp", ">", rd(0), num(1)), [wr(num(1), 1)])], [wr(num(2), 1)])]
+        return prog([], [f], main, ["witness"])
+    first = impl.compile_one((build("zz0").text(), impl.vec(append_version=False, inline_functions=False)))
+    m = re.search(r"^(lbelse\d+):", first.get("code", ""), re.M)
+    if m:
+        out.append(("witness/generated_label_lookalike", build(m.group(1))))
+    return out
+
+
 def static_labels(code):
     """(a) every control transfer names exactly one existing location; labels defined once"""
     P = Parsed(code)
@@ -82,6 +105,7 @@ def main(tier, seed):
         p = progen.Gen(rng, adversarial_profile(rng)).program()
         if len(p.funcs) >= 2 or (p.funcs and rng.random() < 0.3):
             progs.append((f"adv/{len(progs)}", p.text(), p))
+    progs += [(nm, p.text(), p) for nm, p in finding_witnesses()]
     progs += [(nm, s, None) for nm, s in impl.repo_programs() if "error" not in nm and "constexpr" not in nm]
     jobs = []
     variants = [dict(inline_functions=False), dict(inline_functions=True), dict(inline_functions=False, compact=True)]
